@@ -453,6 +453,12 @@ def rule_gf7_gf8(chk: Check):
                 "the grammars in this repository define `fstring` twice and the shipped parser follows the later definition")
 
 
+def _module_literals(rel: str) -> dict:
+    """Module-level names bound to a literal: named constants a method may test against."""
+    from .c17 import module_pure_constants
+    return {k: v for k, v in module_pure_constants(rel).items() if isinstance(v, (str, int, tuple, frozenset, set, list, dict))}
+
+
 def rule_gf9_11(chk: Check):
     """GF9: once a rule has registered clean-up statements, every `return` it emits goes through add_return (which emits them
     first); the one direct emission is the compact `return self.seq_alts(...)` form taken before anything else is printed.
@@ -512,7 +518,8 @@ def rule_gf9_11(chk: Check):
             want = (name, f"self.{name}()")
         try:
             got = constfold.eval_pure_function(leaf, {"self": me, "node": types.SimpleNamespace(value=name)},
-                                               data_attrs=("gen", "tokens", "tokens_enum", "name", "value", "__members__"))
+                                               data_attrs=("gen", "tokens", "tokens_enum", "name", "value", "__members__"),
+                                               extra=_module_literals("tasks/generator.py"))
         except constfold.PureEvalError as e:
             bad.append((name, f"not evaluable: {e}"))
             break
